@@ -102,3 +102,10 @@ Theorem load_publishes_declared : forall ds m id, build ds = inl m ->
   = map snd (filter (fun d => declared_exp ds (snd d)) (filter is_def_decl ds)).
 Proof. exact load_publishes_declared_proof. Qed.
 Print Assumptions load_publishes_declared.
+
+(* The imports of a built module: the names it declares `import`, once each, in order of first
+   declaration. *)
+Theorem build_imports_spec : forall ds m, build ds = inl m ->
+  imports_of m = nodup_first (import_names ds).
+Proof. exact build_imports_spec_proof. Qed.
+Print Assumptions build_imports_spec.
